@@ -1,6 +1,7 @@
 import Pocket.Src.Preds
 import Pocket.Model.Utf8
 import Pocket.Model.ParseFilter
+import Pocket.Model.Store
 /- What the source says NOW (`Pocket/Src/Preds.lean`, regenerated from /repo by `lib/srcfacts.py` on every check run)
 against what the model says: the set of characters `json_escape` copies unescaped, and the letter test that makes a filter
 member a tag constraint.  Proved by arithmetic: any equivalent respelling in the source still proves. -/
@@ -11,5 +12,16 @@ theorem safe_char_from_source (c : Nat) : Src.isSafeChar c = isSafeChar c := by
 
 theorem tag_member_letter_from_source (b : Nat) : Src.tagMemberLetter b = isLetter b := by
   rw [Bool.eq_iff_iff]; simp [Src.tagMemberLetter, isLetter] <;> omega
+
+/-- the scraping allowance, as `find_events` spells it today (`maxtime = until.min(now)`, `allow = allow_scraping || limit <= … ||
+maxtime.saturating_sub(since) < …`), is the model's `scrapeAllowed` -/
+theorem scrape_gate_from_source (f : FilterRec) (allow : Bool) (allowLimit allowSecs now : Nat) :
+    Src.scrapeAllow allow f.limit allowLimit allowSecs f.since f.until now = scrapeAllowed f allow allowLimit allowSecs now := by
+  unfold Src.scrapeAllow scrapeAllowed
+  have : min f.until now = (if f.until < now then f.until else now) := by
+    by_cases h : f.until < now
+    · simp [h]; omega
+    · simp [h]; omega
+  rw [this]
 
 end Pocket
